@@ -901,7 +901,7 @@ func (p *prog) smartWasm(c *contract) *opSpec {
 	}
 	args, cls := p.mangle(args, "wasmArgs")
 	op := p.mkCall(c, a, m, p.payAmount("wasmPay", a, big.NewInt(0), big.NewInt(0), sim.Dna(2)), args, cls, true)
-	if cls == "typed" {
+	if cls == "typed" && len(args) >= 2 {
 		switch {
 		case c.bin.name == "sum_func" && m == "invoke":
 			op.post = postSum(args[0], args[1])
